@@ -206,6 +206,53 @@ fn main() {
                 n
             })
         }
+        // arc-swap integration: the new handle is produced by arc-swap (`load_full` = a guard turned into an owner, which
+        // goes through `RefCnt::inc`), not by the handle's own `clone`
+        #[cfg(feature = "t_arc_swap")]
+        "asw_arc_load_full" => {
+            let a = Arc::new(7u64);
+            let p = a.heap_ptr();
+            let cell: arc_swap::ArcSwapAny<Arc<u64>> = arc_swap::ArcSwapAny::new(a);
+            case(p, start, &|| { let g = cell.load(); Arc::strong_count(&g) }, &mut || {
+                let b = cell.load_full();
+                let n = Arc::strong_count(&b);
+                std::mem::forget(b);
+                n
+            })
+        }
+        #[cfg(feature = "t_arc_swap")]
+        "asw_thin_load_full" => {
+            let t = ThinArc::from_header_and_slice(5u32, &[1u16, 2, 3]);
+            let p = t.heap_ptr();
+            let cell: arc_swap::ArcSwapAny<ThinArc<u32, u16>> = arc_swap::ArcSwapAny::new(t);
+            case(p, start, &|| { let g = cell.load(); ThinArc::strong_count(&g) }, &mut || {
+                let b = cell.load_full();
+                let n = ThinArc::strong_count(&b);
+                std::mem::forget(b);
+                n
+            })
+        }
+        // two threads clone once each, released together: from `start` = isize::MAX the second increment sees a count
+        // above the limit whatever the interleaving, so the process must die (a check-then-increment guard lets both pass)
+        "arc_race2" => {
+            let a = Arc::new(7u64);
+            let p = a.heap_ptr();
+            case(p, start, &|| Arc::strong_count(&a), &mut || {
+                // symmetric rendezvous: each thread announces itself and spins until the other has, so both leave the
+                // spin within a cache-line transfer of each other
+                let ready = AtomicUsize::new(0);
+                std::thread::scope(|sc| {
+                    for _ in 0..2 {
+                        sc.spawn(|| {
+                            ready.fetch_add(1, Ordering::AcqRel);
+                            while ready.load(Ordering::Acquire) < 2 { std::hint::spin_loop(); }
+                            std::mem::forget(a.clone());
+                        });
+                    }
+                });
+                Arc::strong_count(&a)
+            })
+        }
         other => {
             eprintln!("unknown entry point {}", other);
             exit(2)
